@@ -340,6 +340,8 @@ class Sched:
             me.sem.acquire()    # pragma: no cover  (never released)
 
     def _tick(self, me):
+        if self.abort is not None and me.idx == 0:
+            raise self.abort            # the run is over: thread 0 must not re-enter the scheduler
         s = self.step = self.step + 1
         if self.at_step:
             f = self.at_step.pop(s, None)
